@@ -8,6 +8,14 @@ Requests (space separated tokens, no spaces inside a token):
   switch <K> <env> <val> <pat> <pat> …    first arm that accepts;            ok <i>;<dump> | throw
   bind   <K> <env> <vals> <pat> …         lambda parameters against the argument list `[v,…]`
   hist   <K> <env> <stmt> …               statement history (see `NoulithModel.Impl.PatternStmt`)
+  for    <K> <env> <clause> … <bstmt> …   a `for` loop over `<-` / `<<-` clauses whose patterns hold
+                                          unevaluated annotation / callee expressions (see
+                                          `NoulithModel.Impl.PatternFor`); a raise is recorded by
+                                          appending "raise" to variable 0;   ok <dump>
+      clause = `Cn(<upat>;<iter>)` (`<-`) | `Ci(<upat>;<iter>)` (`<<-`);  iter = `c<val>` | `v<n>`
+      upat   = `U` | `I<n>` | `A(<upat>,<pexpr>)` | `S(…)` | `L(…)` | `P(<upat>)` | `K(<pexpr>;<upat>,…)`
+      pexpr  = `c<val>` | `v<n>` | `x<n>.<m>` (`xs[i]`) | `n<n>(<pexpr>)` (a call that increments variable n)
+      bstmt  = a statement of `hist` | `Gl(<r>,<x>)` (`r append= x`) | `Gi(<r>,<x>,<pexpr>)` (`r append= (x is <pexpr>)`)
   istype <ty> <val>                       `v is T`                           ok 0|1 | throw
   conv   <ty> <val>                       `T(v)`: kind of the result and `T(v) is T`   ok <kind>;0|1 | throw
   typeof <val>                            name of `type(v)`
@@ -24,6 +32,7 @@ import NoulithModel.Spec.Match
 import NoulithModel.Spec.TypedStore
 import NoulithModel.Impl.PatternChain
 import NoulithModel.Impl.PatternConv
+import NoulithModel.Spec.MatchFor
 
 namespace Noulith.DriverC12
 open Noulith Noulith.C12
@@ -514,6 +523,106 @@ def convRes (t : Ty) (r : Out Val) : String :=
   | .throw => "throw"
   | .panic => "panic"
 
+
+/-! ### `for` loops -/
+
+partial def pPE : P PExpr := fun cs =>
+  match cs with
+  | 'c' :: r => (pVal r).map fun (v, r) => (.const v, r)
+  | 'v' :: r => (pNat r).map fun (n, r) => (.var n, r)
+  | 'x' :: r =>
+    match pNat r with
+    | some (a, '.' :: r2) => (pNat r2).map fun (b, r3) => (.index a b, r3)
+    | _ => none
+  | 'n' :: r =>
+    match pNat r with
+    | some (c, '(' :: r2) =>
+      (match pPE r2 with
+       | some (e, ')' :: r3) => some (.counted c e, r3)
+       | _ => none)
+    | _ => none
+  | _ => none
+
+mutual
+partial def pUPat : P UPat := fun cs =>
+  match cs with
+  | 'U' :: r => some (.underscore, r)
+  | 'I' :: r => (pNat r).map fun (n, r) => (.ident n, r)
+  | 'A' :: '(' :: r =>
+    match pUPat r with
+    | some (p, ',' :: r2) =>
+      (match pPE r2 with
+       | some (t, ')' :: r3) => some (.anno p t, r3)
+       | _ => none)
+    | _ => none
+  | 'S' :: '(' :: r => (pUPats r).map fun (ps, r) => (.seq ps false, r)
+  | 'L' :: '(' :: r => (pUPats r).map fun (ps, r) => (.seq ps true, r)
+  | 'P' :: '(' :: r =>
+    match pUPat r with
+    | some (p, ')' :: r2) => some (.splat p, r2)
+    | _ => none
+  | 'K' :: '(' :: r =>
+    match pPE r with
+    | some (f, ';' :: r2) => (pUPats r2).map fun (ps, r3) => (.call f ps, r3)
+    | _ => none
+  | _ => none
+partial def pUPats : P (List UPat) := fun cs =>
+  match cs with
+  | ')' :: r => some ([], r)
+  | _ =>
+    match pUPat cs with
+    | some (p, ',' :: r) => (pUPats r).map fun (ps, r2) => (p :: ps, r2)
+    | some (p, ')' :: r) => some ([p], r)
+    | _ => none
+end
+
+def pIter : P IterE := fun cs =>
+  match cs with
+  | 'c' :: r => (pVal r).map fun (v, r) => (.const v, r)
+  | 'v' :: r => (pNat r).map fun (n, r) => (.var n, r)
+  | _ => none
+
+def pClause : P Clause := fun cs =>
+  match cs with
+  | 'C' :: k :: '(' :: r =>
+    match pUPat r with
+    | some (p, ';' :: r2) =>
+      (match pIter r2 with
+       | some (it, ')' :: r3) => some ({ pat := p, item := k == 'i', iter := it }, r3)
+       | _ => none)
+    | _ => none
+  | _ => none
+
+def pBStmt : P BStmt := fun cs =>
+  match cs with
+  | 'G' :: 'l' :: '(' :: r =>
+    match pNat r with
+    | some (a, ',' :: r2) =>
+      (match pNat r2 with
+       | some (b, ')' :: r3) => some (.log a b, r3)
+       | _ => none)
+    | _ => none
+  | 'G' :: 'i' :: '(' :: r =>
+    match pNat r with
+    | some (a, ',' :: r2) =>
+      (match pNat r2 with
+       | some (b, ',' :: r3) =>
+         (match pPE r3 with
+          | some (t, ')' :: r4) => some (.logIs a b t, r4)
+          | _ => none)
+       | _ => none)
+    | _ => none
+  | _ => (pStmt false cs).map fun (s, r) => (.stmt s, r)
+
+def raiseVal : Val := .str [114, 97, 105, 115, 101]
+
+/-- `try (for …) catch e -> (r append= "raise")`, then the dump -/
+def forRes (k : Nat) (e : Env) (completed : Bool) : String :=
+  if completed then "ok " ++ dump k e
+  else match appendTo e 0 raiseVal with
+    | (e1, .ok ()) => "ok " ++ dump k e1
+    | _ => "throw"
+
 def handle (args : List String) : String :=
   match args with
   | ["fresh", k, env, val, pat] =>
@@ -547,6 +656,18 @@ def handle (args : List String) : String :=
   | "hist" :: k :: env :: stmts =>
     match k.toNat?, parseEnv env, stmts.mapM (full (pStmt false)), stmts.mapM (full (pStmt true)) with
     | some k, some e, some ss, some ts => implHist k (execHistory e ss) ++ tab ++ specHist k (specHistory e ts)
+    | _, _, _, _ => "bad-op"
+  | "for" :: k :: env :: rest =>
+    let cls := rest.takeWhile (·.startsWith "C")
+    let bss := rest.drop cls.length
+    match k.toNat?, parseEnv env, cls.mapM (full pClause), bss.mapM (full pBStmt) with
+    | some k, some e, some cs, some body =>
+      let i := forClauses body cs e
+      let s := specClauses body cs e
+      (match i.2 with
+       | .panic => "panic"
+       | .ok _ => forRes k i.1 true
+       | .throw => forRes k i.1 false) ++ tab ++ forRes k s.1 s.2
     | _, _, _, _ => "bad-op"
   | ["istype", ty, val] =>
     match full pTy ty, full pVal val with
